@@ -83,10 +83,45 @@ func Errors(code string) []ParseErr {
 	return out
 }
 
+// Hang reports that parsing a text did not return within the watchdog limit (twice).
+type Hang struct {
+	Code, State string
+	Limit       time.Duration
+}
+
+func (h Hang) Error() string {
+	return fmt.Sprintf("parse.Parse(%q) did not return within %s, twice (goroutine state: %s)", h.Code, h.Limit, h.State)
+}
+
+// ParseLimit is the per-text watchdog of in-process parses (texts parse in microseconds).
+const ParseLimit = 20 * time.Second
+
+// ErrorsWatched is Errors under the watchdog; an expiry is confirmed by a second run with a fresh
+// limit before Hang is returned.
+func ErrorsWatched(code string) ([]ParseErr, error) {
+	var out []ParseErr
+	for try := 0; ; try++ {
+		r := Watch(ParseLimit, "ErrorsWatched", func() { out = Errors(code) })
+		if r.Finished && r.Panic == "" {
+			return out, nil
+		}
+		if r.Finished {
+			return nil, lib.Infra("parse.Parse(%q) panicked: %s", code, r.Panic)
+		}
+		if try == 1 {
+			return nil, Hang{code, r.State, ParseLimit}
+		}
+	}
+}
+
 // CheckValid returns an infrastructure error if a generated "valid" program has parse errors:
 // that is a defect of the generator (grammar or class representatives), never a verdict.
 func CheckValid(tokens []string, text string) error {
-	if errs := Errors(text); len(errs) > 0 {
+	errs, err := ErrorsWatched(text)
+	if err != nil {
+		return err // Hang (a verdict for the caller to report) or a panic
+	}
+	if len(errs) > 0 {
 		return lib.Infra("generator defect: program %q (tokens %s) is not valid: %+v", text, strings.Join(tokens, " "), errs)
 	}
 	return nil
